@@ -15,7 +15,8 @@ from vlib.runner import Result
 
 ID = 'C09'
 RULE = ('Cases = scene (split_candidate 50%, layered, merge_chain, ref_window, canonical demo data) x parameters x an '
-        'arbitrary prior global NumPy RNG state (seed + k draws) x a history of 0-5 intermediate ops (draw from the global '
+        'arbitrary prior global NumPy RNG state (seed + k uniform draws + 0-3 normal draws, so that states holding a cached '
+        'Gaussian occur) x a history of 0-5 intermediate ops (draw from the global '
         'RNG, run another scene, canonical_demo_data(), a tmp_seed block whose body raises, default_rng use). Oracle: (a) '
         'numpy.random.get_state() is bit-identical before and after every ampycloud call (run, metar_msg, '
         'canonical_demo_data, raising tmp_seed body); (b) the SHA-1 digest of the snapshot (three tables, chunk.data with '
@@ -39,7 +40,7 @@ def strategy_(draw):
     case = draw(S.pipeline_case(WEIGHTS, vary=('sep', 'base', 'msa'), p_default_prms=0.4, exclude=False))
     if draw(st.integers(0, 19)) == 0:
         case = {'cls': 'demo', 'rows': None, 'prms': {'MSA': 10000}}
-    case['rng'] = [draw(st.integers(0, 2 ** 32 - 1)), draw(st.integers(0, 50))]
+    case['rng'] = [draw(st.integers(0, 2 ** 32 - 1)), draw(st.integers(0, 50)), draw(st.integers(0, 3))]
     case['history'] = draw(st.lists(st.sampled_from(HIST_OPS), max_size=5))
     other = draw(S.scene_layered(max_layers=2, n_t=(3, 15), n_ceilos=(1, 2)))
     case['other_rows'] = other['rows'][:60]
@@ -91,6 +92,9 @@ def check(case):
     res.labels = [case['cls']]
     np.random.seed(case['rng'][0])
     np.random.random(case['rng'][1])
+    if len(case['rng']) > 2 and case['rng'][2]:
+        np.random.normal(size=case['rng'][2])   # an odd count leaves a cached Gaussian in the state
+        res.labels.append('cached-gaussian' if case['rng'][2] % 2 else 'normal-draws')
     try:
         d1, engaged = guarded(res, 'run()/metar_msg()', lambda: digest_of(case))
     except Exception as exc:
@@ -101,6 +105,7 @@ def check(case):
         if op == 'draw':
             np.random.random(7)
             np.random.randint(0, 10, 3)
+            np.random.normal(size=1 + case['rng'][1] % 2)
         elif op == 'legacy_seed':
             np.random.seed((case['rng'][0] * 7 + 1) % 2 ** 32)
         elif op == 'default_rng':
